@@ -19,6 +19,8 @@ def run(repo: Repo, tier, rep: Report):
         rep.sample(dict(engine="O", **s))
     n = check_kinds(repo, rep, functions={"generate_snapshots", "parse_snapshots"})
     rep.floor("typed sinks (snapshot reader/writer)", n, 0)
+    from sa.make_str_check import check_make_str
+    check_make_str(repo, rep)
     from sa.fileformat import check_file_format
     from sa.line_model import check_parser, check_decorator
     m = check_file_format(repo, rep, "snapshots", parts=("writer", "reader"))
